@@ -40,14 +40,11 @@ def run(tier, seed):
         cfg = os.path.join(chk.workdir, "TraceScalar_%d.cfg" % s)
         vlib.write_cfg(cfg, vlib.cfg_constants(s), "SPECIFICATION Spec\nVIEW View\nCHECK_DEADLOCK FALSE")
         r = vlib.tlc(os.path.join(common.TRACE_DIR, "TraceScalar.tla"), cfg, os.path.join(chk.workdir, "ts%d" % s), env={"TRACE": trace}, workers=1, timeout=1800)
-        done = [ln for ln in r["prints"] if ln.startswith('<<"TRACE_DONE", %d,' % len(evs))]
-        if r["rc"] != 0 or not done:
+        d = vlib.parse_done(r["out"])
+        if r["rc"] != 0 or d is None or d["n"] != len(evs):
             raise vlib.ToolError("TraceScalar did not finish:\n" + r["out"][-3000:])
         chk.add_tlc(r, traces=1)
-        for ln in r["prints"]:
-            m = re.match(r'^<<"MISMATCH", (\d+),', ln)
-            if m:
-                confirmed.add(int(m.group(1)))
+        confirmed.update(d["lists"].get("mismatches", []))
     chk.add("events_judged_by_spec", len(evs))
     for i in sorted(confirmed):
         e = evs[i - 1]
